@@ -81,6 +81,10 @@ def body(ck, F, cfg):
     for name, parts in (("verifier", parts_v), ("prover", parts_p)):
         ck.require(parts["commit"] == SC.sym_pt("V", "V[*]"), "R06.1", f"{name}:commit-absorbs-V", f"commit must absorb the commitment unconditionally with label V; its schedule is `{S.show_regex(parts['commit'])}`", "src/r1cs/" + name + ".rs")
         ck.require(parts["new"] == SC.sym_msg("dom-sep", "r1cs v1"), "R06.1", f"{name}:new-separator", f"the constructor must absorb the r1cs domain separator and nothing else; its schedule is `{S.show_regex(parts['new'])}`", "src/r1cs/" + name + ".rs")
+    # the branch taken at the phase switch is a function of the circuit (callbacks registered or not), identically on both roles
+    from . import C16
+
+    C16.phase_separator_rule(ck, F, "R06.1")
     eqv, w = S.equivalent(rv, rp)
     msg = ""
     if not eqv:
